@@ -90,6 +90,8 @@ def fence_of(fn: ast.FunctionDef, name_param: str, stop_at_call_of: str | None, 
                         fenced.add(req)
                     break
                 continue  # guard does not fire for this name: look at the next statement
+            if isinstance(st, ast.Raise) and st.exc is not None and "AttributeError" in ast.unparse(st.exc):
+                fenced.add(req)   # the inverted spelling: `if name not in PROBES: return func(self, name)` and then the raise
             break  # any other statement before a firing fence: not fenced
     return fenced
 
